@@ -56,18 +56,18 @@ func (r SeqRec) Quals() []int {
 
 // SeqFile is a FASTA or FASTQ file as records plus writer/reader configuration.
 type SeqFile struct {
-	Format string   `json:"format"` // "fasta" | "fastq"
-	Alpha  string   `json:"alpha"`
-	Width  int      `json:"width,omitempty"`
-	QID    bool     `json:"qid,omitempty"`
-	Enc    int8     `json:"enc"`
-	WriteQ bool     `json:"write_qseq"`      // values handed to the writer are *linear.QSeq
-	ReadQ  bool     `json:"read_qseq"`       // reader template is *linear.QSeq
-	Route  int      `json:"route,omitempty"` // how the reader is driven, see Source / GenRoute
+	Format string `json:"format"` // "fasta" | "fastq"
+	Alpha  string `json:"alpha"`
+	Width  int    `json:"width,omitempty"`
+	QID    bool   `json:"qid,omitempty"`
+	Enc    int8   `json:"enc"`
+	WriteQ bool   `json:"write_qseq"`      // values handed to the writer are *linear.QSeq
+	ReadQ  bool   `json:"read_qseq"`       // reader template is *linear.QSeq
+	Route  int    `json:"route,omitempty"` // how the reader is driven, see Source / GenRoute
 	// TmplCap > 0: the reader's template is empty but owns a buffer of that many letters (a caller that
 	// pre-allocated it, or emptied a used sequence with Seq[:0])
-	TmplCap int `json:"tmpl_cap,omitempty"`
-	Recs   []SeqRec `json:"recs"`
+	TmplCap int      `json:"tmpl_cap,omitempty"`
+	Recs    []SeqRec `json:"recs"`
 }
 
 // Route values: bit 0 set = records are pulled through the package's Scanner
